@@ -415,9 +415,15 @@ class EventDispatcher(object):
                     message.body, type(e).__name__, str(e)
                 )
             )
-            message.acknowledge(multiple=False)
-            # The message has been acknowledged so must no longer be retained.
-            self.unacknowledged_messages.pop(message.message_id, None)
+            """
+            The handler may already have acknowledged the message before it
+            raised (acknowledge() removes it from unacknowledged_messages).
+            Acknowledging a delivery tag twice is a channel error that makes
+            the broker close the channel, so only acknowledge it if it is
+            still outstanding.
+            """
+            if self.unacknowledged_messages.pop(message.message_id, None) is not None:
+                message.acknowledge(multiple=False)
 
     def acknowledge(self, id):
         """
